@@ -42,3 +42,15 @@ func init() {
 		}
 	})
 }
+
+// SIGS: developer aid printing the signature table used by funcalias.go (mqttcheck -property SIGS).
+func init() {
+	register("SIGS", "developer aid", func(r *Run) {
+		for _, f := range r.C.Funcs {
+			if f.Parent() != nil {
+				continue
+			}
+			fmt.Printf("SIG %s\t%s\n", FuncName(f), sigString(f))
+		}
+	})
+}
